@@ -125,7 +125,10 @@ class Check:
             shutil.copy(os.path.join(REPO, "go.sum"), os.path.join(self.work, "go.alt.sum"))
             modargs = ["-modfile", alt]
         for attempt in range(4):
-            p = sh(["go", "build"] + modargs + ["-tags", "verif", "-o", out, "./cmd/vh"], cwd=HARNESS, env=GOENV, check=False, timeout=900)
+            # development aid: VERIF_COVER=1 builds the harness with coverage of the library's packages; run with GOCOVERDIR=<dir>
+            # to see which functions of /repo the drivers reach (tools/api_coverage.py)
+            cover = ["-cover", "-coverpkg=./...,github.com/tonkeeper/tongo/..."] if os.environ.get("VERIF_COVER") else []
+            p = sh(["go", "build"] + modargs + cover + ["-tags", "verif", "-o", out, "./cmd/vh"], cwd=HARNESS, env=GOENV, check=False, timeout=900)
             # while several people edit harness/ concurrently another package may be mid-edit: retry when the
             # errors are outside this property's own package
             own = "internal/%s/" % self.pid.lower()
